@@ -11,3 +11,15 @@ extern "C" void c10_plugin_set_material(rkcommon::utility::Any *a, int id) { *a 
 extern "C" void c10_plugin_set_coord(rkcommon::utility::Any *a, int v) { *a = c10::Coord{(float)v, (float)(v + 1), (float)(v + 2)}; }
 extern "C" void c10_plugin_set_int(rkcommon::utility::Any *a, int v) { *a = v; }
 extern "C" int c10_plugin_material_id(const rkcommon::utility::Any *a) { return a->is<c10::Material>() ? a->get<c10::Material>().id : -1; }
+
+// a type of the module's own, in an unnamed namespace: the host has a DIFFERENT type of the same name in its own unnamed
+// namespace (other members, other size).  Same spelling, same mangled name, two types.
+namespace {
+  struct Item
+  {
+    int samples;
+  };
+}  // namespace
+extern "C" void c10_plugin_set_local(rkcommon::utility::Any *a, int v) { *a = Item{v}; }
+extern "C" int c10_plugin_is_local(const rkcommon::utility::Any *a) { return a->is<Item>() ? 1 : 0; }
+extern "C" int c10_plugin_local_value(const rkcommon::utility::Any *a) { return a->is<Item>() ? a->get<Item>().samples : -1; }
